@@ -349,7 +349,7 @@ func (m *monC07) OnStep(r *Runner, st *Step) {
 		if !ok {
 			want = sdkmath.ZeroInt()
 		}
-		got := netTransfer(fl, r.W.ModuleAddr.String(), r.W.FeeCollector.String(), d)
+		got := netTransfer(fl, r.W.ModuleAddr.String(), r.W.FeeCollector.String(), d).Sub(returnedRewards(r, st.Events).AmountOf(d))
 		if !got.Equal(want) {
 			r.Violate("C07.c", "fee-collector-amount", fmt.Sprintf("slash moved %s %s from custody to the fee collector, entry reductions sum to %s", got, d, want))
 			return
